@@ -279,7 +279,13 @@ fn build_control_block_request<E: FieldElement<BaseField = Felt>>(
     let header =
         alphas[0] + alphas[1].mul_base(Felt::from(transition_label)) + alphas[2].mul_base(addr_nxt);
 
-    let state = main_trace.decoder_hasher_state(row);
+    // the hash of a DYN block does not depend on its target: the hasher chiplet hashes two empty
+    // words in the DYN domain, while the decoder's hasher registers hold the digest of the target
+    let state = if op_code_felt == Felt::from(DYN) {
+        [ZERO; 8]
+    } else {
+        main_trace.decoder_hasher_state(row)
+    };
 
     header + build_value(&alphas[8..16], &state) + alphas[5].mul_base(op_code_felt)
 }
